@@ -15,6 +15,16 @@ package main
 //   history did to the pooled buffer), so here histories (an event / Arr() / Dict() that outgrew 64 KiB, or grew
 //   past 500 bytes) are followed by re-warming with short lines and then by a ladder of larger lines that all
 //   fit the pooled 500-byte buffer, each measured on its FIRST occurrence (mallocs of one call).
+//
+//   changingInputs: "for all ... argument values ... loggers with and without ... timestamp hook": AllocsPerRun
+//   repeats one closure, and the chains above hand it the SAME values (and a frozen clock) on every repetition.  A
+//   rendering that is remembered from one event to the next (a cache of the last timestamp text keyed by second
+//   and zone, an interned key or string, a memoised number) costs nothing then and allocates on every miss.  Here
+//   the inputs change from event to event: (a) TimestampFunc is a clock that moves between events (steps from 1 ms
+//   to 25 h, backwards, sub-second jitter, two / several zones taking turns, a cycle of 64 instants in 4 zones)
+//   under every TimeFieldFormat, read by the With().Timestamp() hook, by Event.Timestamp(), inside a Dict and on a
+//   filtered logger; (b) every value-taking method of the allocation-free set is called with another value (and
+//   another key) of a prebuilt table of 64 on every repetition.
 
 import (
 	"fmt"
@@ -336,4 +346,216 @@ func warmAfterHistory(c *Ctx, variant string) {
 	}
 	zerolog.VerifResetPools()
 	c.Res.ExtraCoverage["warm_after_history_runs"] = runs
+}
+
+// ---------------------------------------------------------------- inputs that change from event to event
+type clockT struct {
+	name string
+	src  string
+	mk   func() func() time.Time // a fresh clock (its counter starts at 0)
+}
+
+func clocks() []clockT {
+	base := time.Unix(1700000000, 123456789).UTC()
+	ist := time.FixedZone("IST", 5*3600+1800)
+	west := time.FixedZone("", -(9*3600 + 900))
+	cet := time.FixedZone("CET", 3600)
+	zones := []*time.Location{time.UTC, ist, west, cet}
+	step := func(d time.Duration, loc *time.Location) func() func() time.Time {
+		return func() func() time.Time {
+			i := 0
+			return func() time.Time { i++; return base.Add(time.Duration(i) * d).In(loc) }
+		}
+	}
+	return []clockT{
+		{"frozen", "always 2023-11-14T22:13:20.123456789Z", step(0, time.UTC)},
+		{"+1ms", "advances 1 ms per reading (UTC)", step(time.Millisecond, time.UTC)},
+		{"+1s", "advances 1 s per reading (UTC)", step(time.Second, time.UTC)},
+		{"+333ms", "advances 333 ms per reading (UTC)", step(333*time.Millisecond, time.UTC)},
+		{"+1s-local", "advances 1 s per reading (time.Local)", step(time.Second, time.Local)},
+		{"+90s-fixed-zone", "advances 90 s per reading, zone +05:30", step(90*time.Second, ist)},
+		{"+1h", "advances 1 h per reading (UTC; crosses days)", step(time.Hour, time.UTC)},
+		{"+25h-west", "advances 25 h per reading, zone -09:15", step(25*time.Hour, west)},
+		{"-1s", "goes BACK 1 s per reading (UTC)", step(-time.Second, time.UTC)},
+		{"two-zones-same-instant", "one instant, reported in UTC and in +05:30 in turn", func() func() time.Time {
+			i := 0
+			return func() time.Time { i++; return base.In(zones[i&1]) }
+		}},
+		{"two-zones-+1s", "advances 1 s per reading, zones UTC / +05:30 in turn", func() func() time.Time {
+			i := 0
+			return func() time.Time { i++; return base.Add(time.Duration(i) * time.Second).In(zones[i&1]) }
+		}},
+		{"two-instants", "two instants 1 h apart in turn (UTC)", func() func() time.Time {
+			i := 0
+			return func() time.Time { i++; return base.Add(time.Duration(i&1) * time.Hour) }
+		}},
+		{"cycle-64x4", "a cycle of 64 instants 7 s apart, zones UTC / +05:30 / -09:15 / +01:00 in turn", func() func() time.Time {
+			i := 0
+			return func() time.Time { i++; return base.Add(time.Duration(i&63) * 7 * time.Second).In(zones[i&3]) }
+		}},
+	}
+}
+
+type valueTable struct {
+	keys  [64]string
+	strs  [64]string
+	ints  [64]int
+	i64s  [64]int64
+	u64s  [64]uint64
+	f64s  [64]float64
+	f32s  [64]float32
+	times [64]time.Time
+	durs  [64]time.Duration
+	bytes [64][]byte
+	errs  [64]error
+	sstr  [64][]string
+	sint  [64][]int
+	sf64  [64][]float64
+	stim  [64][]time.Time
+	sdur  [64][]time.Duration
+	raw   [64][]byte
+}
+
+type tableErr struct{ s string }
+
+func (e *tableErr) Error() string { return e.s }
+
+func newValueTable() *valueTable {
+	t := &valueTable{}
+	zones := []*time.Location{time.UTC, time.FixedZone("IST", 5*3600+1800), time.FixedZone("", -3600)}
+	for i := 0; i < 64; i++ {
+		t.keys[i] = fmt.Sprintf("key%02d", i)
+		t.strs[i] = fmt.Sprintf("value-%d-%s", i*7919, strings.Repeat("s", i%9))
+		t.ints[i] = (i - 32) * 1000003
+		t.i64s[i] = int64(i-20) << uint(i%50)
+		t.u64s[i] = uint64(i+1) << uint(i%60)
+		t.f64s[i] = float64(i-30) * 1.37e-3 * float64(int64(1)<<uint(i%40))
+		t.f32s[i] = float32(i) * 0.37
+		t.times[i] = time.Unix(1700000000+int64(i)*4001, int64(i)*1000003).In(zones[i%3])
+		t.durs[i] = time.Duration(i*i+1) * 1234567
+		t.bytes[i] = []byte(fmt.Sprintf("b%03d\"%s", i, strings.Repeat("z", i%7)))
+		t.errs[i] = &tableErr{fmt.Sprintf("failure %d", i)}
+		t.sstr[i] = []string{t.strs[i], "x", t.keys[i]}
+		t.sint[i] = []int{i, -i, i * 1000}
+		t.sf64[i] = []float64{t.f64s[i], 0.5}
+		t.stim[i] = []time.Time{t.times[i], t.times[(i+1)%64]}
+		t.sdur[i] = []time.Duration{t.durs[i], time.Duration(i)}
+		t.raw[i] = []byte(fmt.Sprintf(`{"n":%d}`, i))
+	}
+	return t
+}
+
+func changingInputs(c *Ctx, variant string) {
+	oldClock, oldFormat := zerolog.TimestampFunc, zerolog.TimeFieldFormat
+	defer func() { zerolog.TimestampFunc, zerolog.TimeFieldFormat = oldClock, oldFormat }()
+	// ---- (a) the clock moves between events
+	formats := []string{time.RFC3339, time.RFC3339Nano, zerolog.TimeFormatUnix, zerolog.TimeFormatUnixMs, zerolog.TimeFormatUnixMicro, zerolog.TimeFormatUnixNano, time.StampMicro}
+	type entry struct {
+		name, src string
+		mk        func() func()
+	}
+	entries := []entry{
+		{"hook", `l := New(w).With().Timestamp().Logger(); l.Info().Str("k", "v").Msg("m")`, func() func() {
+			l := zerolog.New(io.Discard).With().Timestamp().Logger()
+			return func() { l.Info().Str("k", "v").Msg("m") }
+		}},
+		{"hook-on-child", `p := New(w).With().Timestamp().Logger(); l := p.With().Str("svc", "x").Logger(); l.Warn().Msg("m")`, func() func() {
+			p := zerolog.New(io.Discard).With().Timestamp().Logger()
+			l := p.With().Str("svc", "x").Logger()
+			return func() { l.Warn().Msg("m") }
+		}},
+		{"method", `l := New(w); l.Info().Timestamp().Str("k", "v").Msg("m")`, func() func() {
+			l := zerolog.New(io.Discard)
+			return func() { l.Info().Timestamp().Str("k", "v").Msg("m") }
+		}},
+		{"method-twice-and-in-dict", `l := New(w); l.Info().Timestamp().Dict("d", Dict().Timestamp()).Timestamp().Send()`, func() func() {
+			l := zerolog.New(io.Discard)
+			return func() { l.Info().Timestamp().Dict("d", zerolog.Dict().Timestamp()).Timestamp().Send() }
+		}},
+		{"hook-filtered", `l := New(w).With().Timestamp().Logger().Level(WarnLevel); l.Info().Timestamp().Msg("m")`, func() func() {
+			l := zerolog.New(io.Discard).With().Timestamp().Logger().Level(zerolog.WarnLevel)
+			return func() { l.Info().Timestamp().Msg("m") }
+		}},
+	}
+	runs := 0
+	for _, tf := range formats {
+		zerolog.TimeFieldFormat = tf
+		for _, ck := range clocks() {
+			for _, en := range entries {
+				zerolog.TimestampFunc = ck.mk()
+				f := en.mk()
+				f()
+				a := testing.AllocsPerRun(100, f)
+				runs++
+				if a != 0 {
+					c.Violate(Violation{Key: "fast-path-allocates", Monitor: "allocs-per-run-moving-clock", Desc: fmt.Sprintf("%s (%s build): %.1f allocs/op for the Timestamp field when TimestampFunc is a clock that %s, TimeFieldFormat=%q (the same chain under a frozen clock is measured by the other streams)", en.name, variant, a, ck.src, tf),
+						Case: map[string]interface{}{"chain": en.src, "TimestampFunc": ck.src, "clock": ck.name, "TimeFieldFormat": tf, "build": variant, "measured": "testing.AllocsPerRun(100, chain): one reading of the clock per Timestamp field, 101 events"}, Observed: a, Expected: 0})
+				}
+				c.Count("moving-clock "+tf+" "+ck.name+" "+en.name, ck.name != "frozen")
+			}
+		}
+	}
+	zerolog.TimestampFunc, zerolog.TimeFieldFormat = oldClock, oldFormat
+	c.Res.ExtraCoverage["moving_clock_chains"] = runs
+	// ---- (b) another value (and key) on every repetition
+	t := newValueTable()
+	type vchain struct {
+		name, src string
+		f         func(e *zerolog.Event, i int)
+	}
+	chains := []vchain{
+		{"Str", `e.Str(key[i], str[i])`, func(e *zerolog.Event, i int) { e.Str(t.keys[i], t.strs[i]) }},
+		{"Strs", `e.Strs(key[i], strs[i])`, func(e *zerolog.Event, i int) { e.Strs(t.keys[i], t.sstr[i]) }},
+		{"Bytes-Hex-RawJSON", `e.Bytes(key[i], b[i]).Hex("h", b[i]).RawJSON("r", raw[i])`, func(e *zerolog.Event, i int) { e.Bytes(t.keys[i], t.bytes[i]).Hex("h", t.bytes[i]).RawJSON("r", t.raw[i]) }},
+		{"Bool", `e.Bool(key[i], i%3 == 0)`, func(e *zerolog.Event, i int) { e.Bool(t.keys[i], i%3 == 0) }},
+		{"Int-widths", `e.Int(key[i], n[i]).Int8("a", int8(n[i])).Int16("b", int16(n[i])).Int32("c", int32(n[i])).Int64("d", m[i])`, func(e *zerolog.Event, i int) {
+			e.Int(t.keys[i], t.ints[i]).Int8("a", int8(t.ints[i])).Int16("b", int16(t.ints[i])).Int32("c", int32(t.ints[i])).Int64("d", t.i64s[i])
+		}},
+		{"Uint-widths", `e.Uint(key[i], uint(u[i])).Uint8("a", uint8(u[i])).Uint16("b", uint16(u[i])).Uint32("c", uint32(u[i])).Uint64("d", u[i])`, func(e *zerolog.Event, i int) {
+			e.Uint(t.keys[i], uint(t.u64s[i])).Uint8("a", uint8(t.u64s[i])).Uint16("b", uint16(t.u64s[i])).Uint32("c", uint32(t.u64s[i])).Uint64("d", t.u64s[i])
+		}},
+		{"Ints", `e.Ints(key[i], ints[i])`, func(e *zerolog.Event, i int) { e.Ints(t.keys[i], t.sint[i]) }},
+		{"Floats", `e.Float64(key[i], f[i]).Float32("g", g[i]).Floats64("fs", fs[i])`, func(e *zerolog.Event, i int) { e.Float64(t.keys[i], t.f64s[i]).Float32("g", t.f32s[i]).Floats64("fs", t.sf64[i]) }},
+		{"Time-Times", `e.Time(key[i], t[i]).Times("ts", ts[i])`, func(e *zerolog.Event, i int) { e.Time(t.keys[i], t.times[i]).Times("ts", t.stim[i]) }},
+		{"Dur-Durs-TimeDiff", `e.Dur(key[i], d[i]).Durs("ds", ds[i]).TimeDiff("td", t[i], t[(i+1)%64])`, func(e *zerolog.Event, i int) {
+			e.Dur(t.keys[i], t.durs[i]).Durs("ds", t.sdur[i]).TimeDiff("td", t.times[i], t.times[(i+1)%64])
+		}},
+		{"Err-AnErr", `e.Err(err[i]).AnErr(key[i], err[(i+5)%64])`, func(e *zerolog.Event, i int) { e.Err(t.errs[i]).AnErr(t.keys[i], t.errs[(i+5)%64]) }},
+		{"Dict-Array", `e.Dict(key[i], Dict().Str("s", str[i]).Time("t", t[i])).Array("a", Arr().Str(str[i]).Int(n[i]).Time(t[i]).Dur(d[i]))`, func(e *zerolog.Event, i int) {
+			e.Dict(t.keys[i], zerolog.Dict().Str("s", t.strs[i]).Time("t", t.times[i])).Array("a", zerolog.Arr().Str(t.strs[i]).Int(t.ints[i]).Time(t.times[i]).Dur(t.durs[i]))
+		}},
+	}
+	plain := zerolog.New(io.Discard)
+	withCtx := zerolog.New(io.Discard).With().Str("svc", "x").Timestamp().Logger()
+	filtered := zerolog.New(io.Discard).Level(zerolog.Disabled)
+	vruns := 0
+	for _, tf := range []string{time.RFC3339, time.RFC3339Nano, zerolog.TimeFormatUnixMs} {
+		zerolog.TimeFieldFormat = tf
+		for ci := range chains {
+			ch := &chains[ci]
+			for _, lg := range []struct {
+				name string
+				l    *zerolog.Logger
+			}{{"plain", &plain}, {"context", &withCtx}, {"filtered (Disabled)", &filtered}} {
+				l := lg.l
+				msgs := &t.strs
+				i := 0
+				f := func() {
+					i++
+					e := l.Info()
+					ch.f(e, i&63)
+					e.Msg(msgs[(i*5)&63])
+				}
+				f()
+				a := testing.AllocsPerRun(100, f)
+				vruns++
+				if a != 0 {
+					c.Violate(Violation{Key: "fast-path-allocates", Monitor: "allocs-per-run-changing-values", Desc: fmt.Sprintf("%s logger (%s build): %.1f allocs/op for %s when every event carries another value, key and message of a prebuilt table of 64 (TimeFieldFormat=%q)", lg.name, variant, a, ch.name, tf),
+						Case: map[string]interface{}{"logger": lg.name, "chain": "i++; e := l.Info(); " + ch.src + "; e.Msg(str[(i*5)%64])   (indices taken modulo 64)", "TimeFieldFormat": tf, "build": variant, "values": "key[i] = keyNN; str[i] = distinct texts; n/m/u/f/g = distinct numbers; t[i] = instants 4001 s apart in three zones; d[i] = distinct durations; err[i] = distinct plain errors; all built before the measurement"}, Observed: a, Expected: 0})
+				}
+				c.Count("changing-values "+tf+" "+ch.name+" "+lg.name, true)
+			}
+		}
+	}
+	c.Res.ExtraCoverage["changing_value_chains"] = vruns
 }
